@@ -512,7 +512,7 @@ func (h *hist) signOut() bool {
 				h.violate("auth sign_out GET: redirected to an address other than the signed one", fmt.Sprintf("Location %q, signed return address %q", g.Location(), good))
 			}
 			if g.Status/100 == 4 {
-				h.violate("auth sign_out GET: valid signed in-domain return address refused ["+k.Sig+"]", fmt.Sprintf("status %d for a %s request", g.Status, k.Sig))
+				h.violate("auth sign_out GET: valid signed in-domain return address refused", fmt.Sprintf("status %d for a %s request", g.Status, k.Sig))
 			}
 			if k.GetCookie == "genuine" && g.Status == 200 {
 				rep.Count("auth_get_page_shown", 1)
@@ -562,7 +562,11 @@ func (h *hist) signOut() bool {
 	nCalls, nDone := within(calls, post)
 	cs := cookieState(post, as.CookieName)
 	k.PostStatus, k.PostLoc, k.PostCleared, k.RevokeCalls = post.Status, post.Location(), cs, nCalls
-	rep.Count(fmt.Sprintf("auth_post_%s_cookie_%s_status_%d", map[bool]string{true: "validsig", false: "invalidsig"}[valid], k.PostCookie, post.Status), 1)
+	sigKind := map[bool]string{true: "validsig", false: "invalidsig"}[valid]
+	if isMismatch(k.Sig) {
+		sigKind = "mismatch"
+	}
+	rep.Count(fmt.Sprintf("auth_post_%s_cookie_%s_status_%d", sigKind, k.PostCookie, post.Status), 1)
 	for _, c := range calls {
 		if c.Key == id.AT {
 			rep.Count("revoke_call_with_access_token", 1)
@@ -737,6 +741,8 @@ func (h *hist) judgePost(post *sut.Resp, nCalls, nDone int, cs, good string, ref
 	if nCalls == 0 {
 		if redirected || cs == "cleared" {
 			h.violate("auth sign_out POST: signed out without revoking the token at the IdP", fmt.Sprintf("no revoke call reached the IdP during the request; status %d, session cookie %s", post.Status, cs))
+		} else if post.Status/100 == 4 {
+			h.violate("auth sign_out POST: valid signed in-domain return address refused", fmt.Sprintf("status %d and no revoke call for a %s request with a genuine session", post.Status, k.Sig))
 		} else {
 			// the authenticator reports a failure and keeps the session: from its side the IdP was unreachable
 			rep.Count("revoke_not_received_failure_reported", 1)
@@ -771,13 +777,9 @@ func (h *hist) judgePost(post *sut.Resp, nCalls, nDone int, cs, good string, ref
 	// revocation failed
 	grp := failGroup(k.Revoke)
 	bad := false
-	if redirected {
+	if redirected || cs == "cleared" {
 		bad = true
-		h.violate("auth sign_out POST: redirected although revocation failed ["+grp+"]", fmt.Sprintf("IdP revoke outcome %s; status %d Location %q", k.Revoke, post.Status, post.Location()))
-	}
-	if cs == "cleared" {
-		bad = true
-		h.violate("auth sign_out POST: session cookie cleared although revocation failed ["+grp+"]", fmt.Sprintf("IdP revoke outcome %s; status %d", k.Revoke, post.Status))
+		h.violate("auth sign_out POST: signed out although revocation failed ["+grp+"]", fmt.Sprintf("IdP revoke outcome %s; status %d Location %q; session cookie %s", k.Revoke, post.Status, post.Location(), cs))
 	}
 	if !redirected {
 		told := post.Status >= 400 || (refPage != nil && !bytes.Equal(refPage, post.Body) && post.Status/100 == 2 && len(post.Body) > 0)
@@ -832,7 +834,7 @@ func (h *hist) reuse(revoked bool, postBody url.Values, good string) bool {
 				h.violate("auth sign_out POST: not returned to exactly redirect_uri", fmt.Sprintf("replayed POST: Location %q; return address %q", rp.Location(), good))
 			}
 			if rp.Status/100 == 4 {
-				h.violate("auth sign_out POST: valid signed in-domain return address refused [replayed within 5 minutes]", fmt.Sprintf("status %d", rp.Status))
+				h.violate("auth sign_out POST: valid signed in-domain return address refused", fmt.Sprintf("replayed within 5 minutes: status %d", rp.Status))
 			}
 			if n > 0 && done > 0 && (cs != "cleared" || rp.Status/100 != 3) {
 				h.violate("auth sign_out POST: session cookie not cleared after successful revocation", fmt.Sprintf("replayed POST, IdP answered already-revoked; status %d; session cookie %s", rp.Status, cs))
